@@ -33,7 +33,7 @@ func (w *dnsWorld) classifyForeignQ(name int, qtype uint16, a *dnsAns, fname int
 		if a != nil {
 			return sr.ans == a
 		}
-		return sr.ans == nil && sr.q.name == fname && sr.q.qtype == ftype
+		return (sr.ans == nil || sr.ans.empty) && sr.q.name == fname && sr.q.qtype == ftype
 	}
 	if a != nil && a.wrongFor != nil {
 		return "upstream-answered-other-question"
